@@ -168,6 +168,7 @@ class Canon:
         self.declared = {}      # canonical var -> declvar effect
         self.names = {}         # binder id -> canonical name
         self.sorts = {}         # binder id -> sort info
+        self.varbinders = {}
         self.discover(effs)
 
     # -- discovery of variable carriers from the set-up effects ------------------------
@@ -181,6 +182,9 @@ class Canon:
                 if a:
                     fors = [c for c, _ in ctx if c.kind == 'for']
                     self.var_arrays[a] = (e.value, fors[-1].binder if fors else None)
+            if e.kind == 'store' and model_attr(e.target) and e.value[0] == 'comp' and len(e.value[1]) == 1 and e.value[2][0] == 'lpvar' \
+                    and e.value[1][0][1] == TRUE:
+                self.var_arrays[model_attr(e.target)] = (e.value[2], e.value[1][0][0])
         # canonical letters by *role*, decided from how the variable is named/declared (first literal chunk of its
         # name template is irrelevant); roles are assigned by the attribute that carries it:
         self.attr_letter = {}
@@ -238,14 +242,19 @@ class Canon:
             return ('allpairs',)
         if dom[0] == 'while':
             return ('while', dom[1])
+        if model_attr(dom) in self.var_arrays:
+            return ('varelems', model_attr(dom))
         if dom[0] == 'call' and dom[1] == S('range'):
             return ('range', dom[2])
+        if dom[0] == 'call' and dom[1] == S('reversed') and len(dom[2]) == 1 and dom[2][0][0] == 'call' and dom[2][0][1] == S('range'):
+            return ('range', dom[2][0][2])
         return ('other', dom)
 
     # -- naming of quantifier binders for one family -----------------------------------------
     def begin(self):
         self.names = {}
         self.rank_range = None
+        self.varbinders = {}
 
     def name_quant(self, b, env_quants):
         k = self.classify(b)
@@ -263,6 +272,12 @@ class Canon:
             self.names[b[1]] = 'r'
             self.rank_range = k[1]
             return 'r:range(%s)' % ', '.join(self.pstr(x) for x in k[1]), k
+        if k[0] == 'varelems':
+            letter, sort = self.arr_letter[k[1]]
+            nm = SORTVAR.get(sort, 'k')
+            self.names[b[1]] = nm
+            self.varbinders[b[1]] = '%s[%s]' % (letter, nm)
+            return '%s:%s' % (nm, sort), ('index', sort)
         raise Unknown('quantifier domain ' + show(b[3]))
 
     # -- scalar terms -> polynomials --------------------------------------------------------
@@ -397,6 +412,8 @@ class Canon:
 
     # -- variables --------------------------------------------------------------------------
     def varname(self, t):
+        if t[0] == 'bvar' and t[1] in getattr(self, 'varbinders', {}):
+            return self.varbinders[t[1]]
         if t[0] == 'lpvar':
             return 'obj:' + self.template(t[1])
         if t[0] == 'attr' and t[2] in self.var_attrs and t[1][0] in ('bvar', 'idx'):
@@ -409,6 +426,8 @@ class Canon:
 
     def is_var(self, t):
         if t[0] == 'lpvar':
+            return True
+        if t[0] == 'bvar' and t[1] in getattr(self, 'varbinders', {}):
             return True
         if t[0] == 'attr' and t[2] in self.var_attrs and t[1][0] in ('bvar', 'idx'):
             return True
